@@ -202,6 +202,41 @@ def shard_include(shard):
     return st.result([drv])
 
 
+def shard_tilde(shard):
+    """file and directory names that begin with a tilde - the caller's own, a known account, an unknown one, with and without a
+    rest - through every entry point that expands them: whatever comes back, nothing stays behind"""
+    deadline = shard
+    drv = get_driver('asan')
+    sch = FAM['I1']
+    drv.define_schema('I1', sch.spec())
+    root = engine.worker_root() + '-c07t'
+    if drv.rootdir != root:
+        drv.set_root(root)
+    st = ShardStats('tilde names')
+    names = [b'~', b'~/x.conf', b'~me', b'~me/x.conf', b'~alice/x.conf', b'~nouser', b'~nouser/x.conf', b'~backup.conf', b'~/', b'~me/', b'~nouser/', b'~~', b'~/d/../x.conf']
+    pre = ['wipe', 'mkdir ' + enc(b'h/me/d'), 'mkdir ' + enc(b'h/alice'), 'mkfile %s %s' % (enc(b'h/me/x.conf'), enc(b'i = 7\n')),
+           'mkfile %s %s' % (enc(b'h/alice/x.conf'), enc(b'i = 8\n')),
+           'passwd %s %s' % (enc(b'me'), enc(root.encode() + b'/h/me')), 'passwd %s %s' % (enc(b'alice'), enc(root.encode() + b'/h/alice')), 'me ' + enc(b'me')]
+    cases = []
+    for n in names:
+        cases.append(Case(pre + ['init A I1 0', 'cb_quiet 1', 'tilde ' + enc(n), 'free A']))
+        cases.append(Case(pre + ['init A I1 0', 'cb_quiet 1', 'parse A ' + enc(n), 'parse_buf A ' + enc(b'include("' + n + b'") i = 3'), 'print A', 'free A']))
+        cases.append(Case(pre + ['init A I1 0', 'cb_quiet 1', 'addpath A ' + enc(n), 'addpath A ' + enc(n), 'parse A ' + enc(b'x.conf'),
+                                 'parse_buf A ' + enc(b'sec { include("x.conf") }'), 'searchpath A ' + enc(b'x.conf'), 'print A', 'free A']))
+        for m in names[:7]:
+            cases.append(Case(pre + ['init A I1 0', 'cb_quiet 1', 'addpath A ' + enc(n), 'addpath A ' + enc(m), 'parse_buf A ' + enc(b'include("' + m + b'")'), 'free A']))
+    for c, r in zip(cases, drv.run(cases)):
+        c.lines = ['root ' + enc(root)] + c.lines
+        judge(st, 'I1', c, r, 'tilde')
+        st.transitions += 1
+        st.nontriv('\n'.join(c.lines[-6:]))
+        if time.time() > deadline:
+            st.complete = False
+            break
+    st.samples.append({'names': [n.decode() for n in names], 'entry_points': ['cfg_tilde_expand', 'cfg_parse', 'include()', 'cfg_add_searchpath', 'cfg_searchpath']})
+    return st.result([drv])
+
+
 def shard_odd(shard):
     """every subset of nine option flags on every option kind, meaningful or not: whatever such a schema makes of a text, cfg_free
     releases all of it"""
@@ -262,6 +297,7 @@ def main():
         inner, frontier = trace.viable_prefixes(sch, 0, alpha, 2)
         shards = [('I1', 0, 0, inner, dl)] + [('I1', 0, N, ch, dl) for ch in engine.chunks(frontier, 2)]
         engine.phase(ck, 'E1 N=%d inside included files (5 placements)' % N, shard_include, shards)
+    engine.phase(ck, 'tilde names (own account, known, unknown, with and without a rest) through cfg_tilde_expand, cfg_parse, include, cfg_add_searchpath', shard_tilde, [dl])
     L = 3 if quick else 4
     shards = []
     for sid in ('P1', 'F13'):
